@@ -65,13 +65,13 @@ def shards(tier: str, seed: int) -> list[dict[str, Any]]:
             out.append({"family": "multi", "base": f"q{seed}-m{i}", "n": 20})
         return out
     for i in range(6):
-        out.append({"family": "clean", "base": f"t{seed}-c{i}", "n": 500})
+        out.append({"family": "clean", "base": f"t{seed}-c{i}", "n": 700})
     for i in range(4):
-        out.append({"family": "any", "base": f"t{seed}-a{i}", "n": 500})
+        out.append({"family": "any", "base": f"t{seed}-a{i}", "n": 700})
     for i in range(2):
-        out.append({"family": "scripted", "base": f"t{seed}-s{i}", "n": 600})
+        out.append({"family": "scripted", "base": f"t{seed}-s{i}", "n": 900})
     for i in range(4):
-        out.append({"family": "multi", "base": f"t{seed}-m{i}", "n": 170})
+        out.append({"family": "multi", "base": f"t{seed}-m{i}", "n": 250})
     return out
 
 
@@ -190,6 +190,8 @@ class ScriptedECU:
             pos = b"\x7e\x00"
         elif sid == 0x27 and len(q) >= 2:
             sf = q[1] & 0x7F
+            if sf == 0:
+                return b"\x7f\x27\x12"
             if self.flavour == "pure":
                 # a function of (session, level, request) only: fixed seed per level, key accepted without a preceding seed request
                 if sf % 2 == 1:
@@ -486,6 +488,8 @@ async def one_database(ctx: Any, family: str, hseed: str, path: Path, catch: dh.
         rec = Recording(f"ECU-{jj}-{zlib.crc32(hseed.encode()) % 1000}", f"vf://c12/{hseed}/{jj}", props, model_id)
         recs.append(rec)
         length = rng.choice([5, 8, 60, rng.randint(5, 60), rng.randint(5, 60), rng.randint(20, 60)])
+        if same_ecu:
+            length = max(length, rng.randint(30, 60))  # the other recording's rows are only consulted for requests both recordings contain
         # recordings that share the history seed ask (mostly) the same questions of different ECUs
         rseed = f"{hseed}/req" if (share and not same_ecu) else f"{hseed}/req/{j}"
         recorders.append(Recorder(rec, path, rseed, family, kind, clean, length, pool_seed=f"{hseed}/pool" if same_ecu else None))
